@@ -180,6 +180,7 @@ _BUILTIN = {
 # repository classes the contracts mention: name -> (module, bases resolved from the AST)
 _REPO_CLASS_MODULES = [
     "apischema.deserialization.methods",
+    "apischema.deserialization",
     "apischema.serialization.methods",
     "apischema.validation.errors",
     "apischema.validation.validators",
